@@ -14,6 +14,7 @@ EXTENDS Integers, Sequences, FiniteSets, TLC, Json
 P == INSTANCE Prop_C16
 
 CONSTANTS Callers, MaxGen, MaxCalls, MaxKill,
+          DropOnlyOwn,       \* TRUE: clientDo forgets rc.client only if it is still the client the failed call used
           CloseDropped,      \* TRUE: clientDo closes the client it drops
           ClosedCheckLocked, \* TRUE: the permanent-close flag is read under the mutex (FALSE: read before taking it, not re-read)
           CheckClosedFlag,   \* TRUE: clientDo refuses after Close()
@@ -92,9 +93,9 @@ D2(g, limit) ==
 
 D3(g) == /\ pc[g].st \in {"d3", "d3lim"}
          /\ LET c == pc[g].cl
-                drop == client = c
+                drop == IF DropOnlyOwn THEN client = c ELSE TRUE   \* mutant: closes ITS client, forgets whatever is current
             IN /\ client' = IF drop THEN 0 ELSE client
-               /\ socks' = IF drop /\ CloseDropped THEN socks \ {c} ELSE socks
+               /\ socks' = IF drop /\ CloseDropped THEN socks \ {c} ELSE socks                    \* Close() of the call's own client
                /\ Feed((IF drop /\ CloseDropped /\ c \in socks THEN << E("SockClose") @@ [sock |-> c] >> ELSE <<>>)
                        \o << E("Ret") @@ [g |-> g, kind |-> IF pc[g].st = "d3" THEN "closed" ELSE "limit"] >>)
          /\ pc' = [pc EXCEPT ![g] = [st |-> "idle", cl |-> 0]]
